@@ -161,10 +161,11 @@ def main():
     rc = 0
     nviol = 0
     if viol:
-        os.makedirs(os.path.join(VERIF, 'replays'), exist_ok=True)
+        rpdir = os.path.join(VERIF, 'replays') if os.path.realpath(repo) == '/repo' else '/tmp/vx-scratch-replays'
+        os.makedirs(rpdir, exist_ok=True)
         for v in viol:
             h = hashlib.sha256((v['clause'] + ''.join(v['verus_output'])).encode()).hexdigest()[:10]
-            path = os.path.join(VERIF, 'replays', '%s-%s-%s.json' % (prop, re.sub(r'[^\w.@-]', '_', v['clause']), h))
+            path = os.path.join(rpdir, '%s-%s-%s.json' % (prop, re.sub(r'[^\w.@-]', '_', v['clause']), h))
             rp = v.get('replay') or {}
             doc = dict(property=prop, unit=v['unit'], failed_obligation=v['clause'], obligation_text=v['text'],
                        kind=v['kind'], function=v['fn'], verus_output=v['verus_output'], tier=tier, seed=seed,
@@ -217,8 +218,9 @@ def main():
               assumptions=sorted(set(assumptions)) + ['A-CALLERS: preconditions are proved only at call sites that are themselves under contract',
                                                       'Verus 0.2026.09.13 / Z3 / rustc 1.98.1 are trusted'],
               wall_s=round(wall, 2), violations=nviol)
-    os.makedirs(os.path.join(VERIF, 'evidence'), exist_ok=True)
-    json.dump(ev, open(os.path.join(VERIF, 'evidence', prop + '.json'), 'w'), indent=1)
+    evdir = os.path.join(VERIF, 'evidence') if os.path.realpath(repo) == '/repo' else os.environ.get('VX_SCRATCH_EVIDENCE', '/tmp/vx-scratch-evidence')
+    os.makedirs(evdir, exist_ok=True)
+    json.dump(ev, open(os.path.join(evdir, prop + '.json'), 'w'), indent=1)
     print('%s property=%s tier=%s units=%d obligations=%d discharged=%d wall=%.1fs' % (
         {0: 'OK', 1: 'FAIL', 2: 'UNDECIDED'}[rc], prop, tier, len(mine), obligations, discharged, wall))
     sys.exit(rc)
